@@ -103,6 +103,7 @@ def doJudge (a : Json) : Except String Json := do
   let sc ← J.getObj a "seenClient"
   let client : Resp := { status := ← J.getNat sc "status", headers := ← decodeHdr sc "headers", body := ← J.getHex sc "body" }
   pure <| J.obj [("req", encodeReqVerdict (reqVerdict r seenUp)),
+                 ("pathKnownReencoding", J.bool (targetOK pathKnownReencoding r.target seenUp.target)),
                  ("resp", encodeRespVerdict (respVerdict closeIdle upStatus upLines upBody client))]
 
 def decodeImp (s : String) : Except String Imp :=
@@ -114,7 +115,7 @@ def decodeImp (s : String) : Except String Imp :=
   | _ => throw s!"unknown impersonation kind {s}"
 
 def decodeScenario (j : Json) : Except String Scenario := do
-  pure { labelsUTF8 := ← J.getBool j "labelsUTF8", hostIsIP := ← J.getBool j "hostIsIP", clusterKnown := ← J.getBool j "clusterKnown", denyAll := ← J.getBool j "denyAll",
+  pure { requestInfoOK := ← J.getBool j "requestInfoOK", hostIsIP := ← J.getBool j "hostIsIP", clusterKnown := ← J.getBool j "clusterKnown", denyAll := ← J.getBool j "denyAll",
          authOK := ← J.getBool j "authOK", imp := ← decodeImp (← J.getStr j "imp"), policyMatches := ← J.getBool j "policyMatches",
          acquireOK := ← J.getBool j "acquireOK", resource := ← J.getHex j "resource", popOK := ← J.getBool j "popOK" }
 
@@ -125,7 +126,6 @@ def optNat : Option Nat → Json
 def encodeOutcome : Outcome → Json
   | .notProxied => J.obj [("kind", Json.str "notProxied")]
   | .forward => J.obj [("kind", Json.str "forward")]
-  | .aborted => J.obj [("kind", Json.str "aborted")]
   | .plainError c => J.obj [("kind", Json.str "plain"), ("code", J.nat c)]
   | .terminated a => J.obj [("kind", Json.str "terminated"), ("code", J.nat a.httpCode), ("retryAfter", optNat a.retryAfter),
                             ("reason", J.hex a.body.reason), ("statusCode", J.nat a.body.code)]
@@ -148,7 +148,7 @@ def doJudgeTerm (a : Json) : Except String Json := do
   let row := match out with
     | .terminated ans => matchesRow ans o
     | _ => false
-  let flowControlled := s.labelsUTF8 && !s.hostIsIP && s.clusterKnown && !s.denyAll && s.authOK
+  let flowControlled := s.requestInfoOK && !s.hostIsIP && s.clusterKnown && !s.denyAll && s.authOK
     && (s.imp == .none || s.imp == .allowed) && s.policyMatches && !s.acquireOK
   pure <| J.obj [("outcome", encodeOutcome out), ("wellFormed", J.bool (wellFormed o)), ("matchesRow", J.bool row),
                  ("retryAfterDemanded", J.bool (retryAfterDemanded o flowControlled s.resource))]
